@@ -569,6 +569,11 @@ def execute(w, op, spec_pre):
                 created = sibling(w, spec_pre, op['o'])
             elif name == 'MutateList':
                 getattr(o, op['which']).append(op['elem'])
+                if 'aliases' in o.__dict__:
+                    # alias-extended objects: also edit the instance's alias map and preferred names in place (opaque
+                    # extras: a later copy must carry them, nobody else may see them)
+                    o.__dict__['aliases']['zz_' + op['which']] = o.__dict__['index'][-1]
+                    o.__dict__['preferred_names'].append('zz_' + op['which'])
             elif name == 'SetLagsLeads':
                 o.lags = op['lg']
                 o.leads = op['ld']
